@@ -54,6 +54,8 @@ fn clip(s: &str, n: usize) -> String {
 // ==========================================================================================
 // encoder inputs
 
+/// top-level keys every JSON record carries
+const ALWAYS_PRESENT: &[&str] = &["timestamp", "level", "target", "name"];
 const RESERVED: &[&str] = &["timestamp", "level", "target", "message", "name", "span_id", "parent_id", "thread_id", "thread_name"];
 const LEVELS: [(Level, &str); 5] = [(Level::ERROR, "ERROR"), (Level::WARN, "WARN"), (Level::INFO, "INFO"), (Level::DEBUG, "DEBUG"), (Level::TRACE, "TRACE")];
 
@@ -79,10 +81,19 @@ fn gen_event(rng: &mut Rng, flatten: bool) -> (LogEvent, usize) {
   let mut ev = LogEvent::new(level, target, name, message);
   let nf = if rng.chance(1, 4) { 0 } else { rng.range(1, 6) };
   for _ in 0..nf {
+    // now and then a field is named like one of the record's own top-level keys: in flattened mode it
+    // must neither replace the core value nor disappear (it is kept under "fields")
+    // (only keys every record carries: with the optional ones - message, span_id, ... - a flattened field of
+    // that name in a record that lacks the core value is indistinguishable from the core value by design)
     let key = loop {
-      let k = if rng.chance(1, 2) { strgen::plain(rng, 1, 8) } else { strgen::nasty(rng) };
-      // task rule: in flattened mode keys colliding with reserved top-level names are excluded
-      if flatten && RESERVED.contains(&k.as_str()) {
+      let k = if rng.chance(1, 8) {
+        rng.pick(ALWAYS_PRESENT).to_string()
+      } else if rng.chance(1, 2) {
+        strgen::plain(rng, 1, 8)
+      } else {
+        strgen::nasty(rng)
+      };
+      if flatten && RESERVED.contains(&k.as_str()) && !ALWAYS_PRESENT.contains(&k.as_str()) {
         continue;
       }
       break k;
@@ -218,7 +229,18 @@ fn check_json(ev: &LogEvent, flatten: bool, res: &mut ShardResult) -> Vec<Findin
   }
   if flatten {
     for (k, v) in &ev.fields {
-      check_field(k, v, j.get(k), &mut out, mode);
+      if ALWAYS_PRESENT.contains(&k.as_str()) {
+        // shadowed by a core key: the core key keeps its value (checked above), the field lives under "fields"
+        let nested = j.get("fields").and_then(|f| f.get(k));
+        if nested.is_none() {
+          out.push(finding("json", "field-lost", "flattened-name-collides-with-core-key",
+            format!("field {:?} has the name of a top-level key of the record and appears nowhere in the flattened record", k), json!({})));
+        } else {
+          check_field(k, v, nested, &mut out, mode);
+        }
+      } else {
+        check_field(k, v, j.get(k), &mut out, mode);
+      }
     }
   } else {
     match j.get("fields") {
